@@ -280,8 +280,12 @@ def items(tier):
                 continue  # the chain needs two hyperedges to make a move (as for initial hypergraphs)
             tot = 2 * n2 + 3 * n3
             dim = tuple((k, v) for k, v in ((2, n2), (3, n3)) if v)
-            for deg in itertools.product(range(0, 4), repeat=4):
+            for deg in itertools.product(range(0, 10), repeat=4):
                 if sum(deg) != tot or list(deg) != sorted(deg, reverse=True):
+                    continue
+                if max(deg) > 3:
+                    # very skewed sequences (several zero-degree padding nodes per hyperedge): construction only
+                    yield ("seq", (deg, dim, 0, 0, 4))
                     continue
                 for burn, inter in ((0, 0), (0, 1)) if tier == "quick" else ((0, 0), (0, 1), (1, 1)):
                     yield ("seq", (deg, dim, burn, inter, 4))
